@@ -337,6 +337,8 @@ func (c *ctx) session5Facts() {
 
 	c.untarIndexAssembler()
 
+	c.cmdExtractTail()
+
 	c.lean.WriteString("\n/-! cmd/desync/prune.go (C16): the keep-set -/\n")
 	fd = c.funcDecl(c.cmd, "", "runPrune")
 	var ps []string
@@ -465,4 +467,56 @@ func (c *ctx) untarIndexAssembler() {
 	}
 	c.lean.WriteString("/-- `UnTarIndex`: the `ctx.Done()` arm of the assembler's select -/\n")
 	c.emitShape("poll_UnTarIndex_assembler", "untarIndexAssemblerOnCancel", acts, found)
+}
+
+// cmdExtractTail: what runExtract does with the error of the assembly (cmd/desync/extract.go): the statements that
+// follow the if/else calling writeInplace / writeWithTmpFile, in order
+func (c *ctx) cmdExtractTail() {
+	fd := c.funcDecl(c.cmd, "", "runExtract")
+	var tail []string
+	found := false
+	if fd != nil {
+		after := false
+		for _, st := range fd.Body.List {
+			if !after {
+				if ifs, ok := st.(*ast.IfStmt); ok {
+					src := ""
+					walk(ifs, func(n ast.Node) bool {
+						if call, ok := n.(*ast.CallExpr); ok {
+							src += exprString(call.Fun) + ";"
+						}
+						return true
+					})
+					if strings.Contains(src, "writeInplace") && strings.Contains(src, "writeWithTmpFile") {
+						after, found = true, true
+					}
+				}
+				continue
+			}
+			switch t := st.(type) {
+			case *ast.IfStmt:
+				d := "if:" + exprString(t.Cond)
+				for _, b := range t.Body.List {
+					if r, ok := b.(*ast.ReturnStmt); ok && len(r.Results) == 1 {
+						res := exprString(r.Results[0])
+						if call, ok := r.Results[0].(*ast.CallExpr); ok {
+							res = exprString(call.Fun) + "(…)"
+						}
+						d += ":return " + res
+					} else {
+						d += ":stmt"
+					}
+				}
+				tail = append(tail, d)
+			case *ast.ReturnStmt:
+				if len(t.Results) == 1 {
+					tail = append(tail, "return "+exprString(t.Results[0]))
+				}
+			default:
+				tail = append(tail, "stmt")
+			}
+		}
+	}
+	c.lean.WriteString("\n/-! cmd/desync/extract.go (C01): the assembly's error is returned before anything else is done -/\n")
+	c.emitShape("shape_cmd_extract_tail", "cmdExtractTail", tail, found)
 }
